@@ -11,6 +11,7 @@ mod rt;
 mod cpubus;
 mod lcd;
 mod kbd;
+mod sched;
 
 use std::io::{self, BufRead, Write};
 use std::sync::atomic::{AtomicU64, Ordering};
@@ -61,6 +62,7 @@ fn main() {
         "cpubus" => cpubus::main(),
         "lcd" => lcd::main(),
         "kbd" => kbd::main(),
+        "sched" => sched::main(),
         _ => {
             eprintln!("usage: vrt <exec|...>");
             std::process::exit(64);
